@@ -82,9 +82,20 @@ class RenameDuplicateClasses(ContainerHandlerInterface):
                     self.add_numeric_suffix(target)
 
     def add_abstract_suffix(self, target: Class) -> None:
-        """Add the abstract suffix to class name."""
+        """Add the abstract suffix to class name.
+
+        Fallback to a numeric suffix, if the new name is taken.
+        """
         new_qname = f"{target.qname}_abstract"
-        self.rename_class(target, new_qname)
+        new_name = namespaces.local_name(new_qname)
+        cmp = text.alnum(new_name if self.use_names else new_qname)
+        reserved = self.get_reserved()
+
+        if cmp in reserved:
+            self.add_numeric_suffix(target)
+        else:
+            reserved.add(cmp)
+            self.rename_class(target, new_qname)
 
     def add_numeric_suffix(self, target: Class) -> None:
         """Find the next available class name.
